@@ -68,12 +68,19 @@ type c08ctx struct {
 
 // toCoq: which cases are also evaluated by the Coq model (the finder runs on ALL cases).  Quick tier: every
 // valid frame, every length-field corruption and every codec-specific corruption of frames below 20 kB, a third of
-// the flips / truncations / random inputs; thorough tier: everything below 100 kB and a quarter above.
+// the flips / truncations / random inputs; thorough tier: see below.
 func (c *c08ctx) toCoq(in []byte, kind string, h [32]byte) bool {
 	cls := kindClass(kind)
 	structural := cls == "valid" || cls == "valid+garbage" || (len(cls) > 3 && cls[:4] == "len:") || (cls != "flip" && cls != "trunc" && cls != "random")
 	if c.run.Thorough() {
-		return len(in) < 100000 || h[0]%4 == 0
+		// thorough: everything below 1.5 kB, half of the rest below 20 kB, a sixth of the structural cases above
+		switch {
+		case len(in) <= 1500:
+			return true
+		case len(in) <= 20000:
+			return structural || h[0]%2 == 0
+		}
+		return structural && h[0]%6 == 0
 	}
 	if len(in) > 20000 {
 		return structural && h[0]%6 == 0
@@ -158,7 +165,7 @@ func clipS(s string, n int) string {
 func c08Codec(run *Run, cd *codecDef) {
 	r := run.R
 	c := &c08ctx{run: run, cd: cd, sh: run.NewShard(cd.Header, cd.CaseType, cd.Eval), seen: map[[32]byte]bool{}}
-	nbase := run.N(8, 80)
+	nbase := run.N(8, 40)
 	for i := 0; i < nbase; i++ {
 		big := i%4 == 3
 		vf := cd.Gen(r, big)
